@@ -4,4 +4,5 @@
 EXTENDS Lifecycle
 NoDevs == {}
 AsIsDevs == {"SetT_NoInvalidate", "SetT0_NoInvalidate", "Solver_NoInvalidate", "SetValue_NotStored", "Retranscribe_Dirty"}
+StaleSolDevs == {"StaleSolRetranscribes"}
 =============================================================================
